@@ -304,8 +304,9 @@ def rule_r6_designations(ctx: Ctx) -> None:
             target = P(want[key]["file"]) if how == "abs" else P(rel[key])
             r = R.run_entry(ctx, "read_files", [[target], list(roots), []], files, cwd=cwd)
             ctx.count()
+            # (how often the definition is read is not this property's business: every reading must give the same identity)
             got = r.identities[0] if r.identities else None
-            if r.raised or got is None or len(r.identities) != 1 or any(got.get(k) != v for k, v in want[key].items()):
+            if r.raised or got is None or any(g.get(k) != v for g in r.identities for k, v in want[key].items()):
                 bad.append({"designation": label, "outcome": r.raised or "a result", "read": got, "expected": want[key]})
         ctx.check(not bad, fn.short, "%s through %d designations" % (want[key]["file"], len(designations)), "name, version, port-ID and root of a file do not depend on how target and root are designated", fn.where(), bad[:3])
     # a target that lies under none of the designated roots is rejected, not attributed to some root
